@@ -33,6 +33,8 @@ def parse_split_specification(split_spec, size):
         else:
             raise ValueError("cannot parse specification '%s'" % split_spec)
     # check if it makes sense
+    if any(part < 0 for part in parts):
+        raise ValueError("negative part size in specification '%s'" % split_spec)
     sum_parts = sum(parts)
     if sum_parts < size:
         diff = size - sum_parts
